@@ -132,6 +132,14 @@ theorem runLinesFuel_spec (s : Source) (preload : Bool) (chosen : EntryH → Boo
   have hn : 0 < (decodeLines s).length := Nat.lt_of_lt_of_le hf (List.length_filter_le _ _)
   have hn' : 0 < s.n := by omega
   unfold runLinesFuel
+  by_cases hpc : loadSeesCancel .uri preload cancelAt = true
+  · rw [if_pos hpc]
+    have hT := T_zero_of_loadSeesCancel .uri preload cancelAt T hpc tg
+    subst hT
+    have hc : cancelled cancelAt 0 = true := by
+      unfold loadSeesCancel at hpc; simp only [Bool.and_eq_true] at hpc; exact hpc.2
+    simp [cycTake_zero, endRes, hc]
+  rw [if_neg hpc]
   refine httpRun_spec (scanLines s) (·.passNum) LDec.init (RLine s) (decodeLines s) chosen preload b cancelAt T hn hf
     ?_ ?_ ?_ (RLine_init s) tg
   · rw [hlen]; exact src_lines s 1 hn'
@@ -147,6 +155,8 @@ theorem runLinesFuel_nomatch (s : Source) (preload : Bool) (chosen : EntryH → 
   by_cases hn : 0 < (decodeLines s).length
   · have hn' : 0 < s.n := by omega
     unfold runLinesFuel
+    rw [loadSeesCancel_false .uri preload cancelAt hc0]
+    simp only [Bool.false_eq_true, if_false]
     refine httpRun_nomatch (scanLines s) (·.passNum) LDec.init (RLine s) (decodeLines s) chosen preload b cancelAt
       hn hf' hc0 ?_ ?_ ?_ (RLine_init s)
     · rw [hlen]; exact src_lines s 1 hn'
@@ -157,6 +167,8 @@ theorem runLinesFuel_nomatch (s : Source) (preload : Bool) (chosen : EntryH → 
     have hd : decodeLines s = [] := List.eq_nil_of_length_eq_zero (by omega)
     have hlt : ¬ (0 < s.n) := by omega
     unfold runLinesFuel
+    rw [loadSeesCancel_false .uri preload cancelAt hc0]
+    simp only [Bool.false_eq_true, if_false]
     rw [hd]
     by_cases hp : ¬ b.passes = 0 ∧ b.passes ≤ 1 <;>
     cases preload <;>
